@@ -37,6 +37,7 @@ type ReplayResult struct {
 	Other    []string `json:"failures_of_other_clauses,omitempty"`
 	Output   string   `json:"output_tail"`
 	FoundBy  string   `json:"found_by"`
+	Broken   bool     `json:"adapter_broken,omitempty"`
 	Seconds  float64  `json:"seconds"`
 }
 
@@ -108,6 +109,9 @@ func parseAdapter(r *adapterRun, fn, label string) *ReplayResult {
 			}
 		}
 	}
+	if !strings.Contains(r.out, "REPLAY-CASES") {
+		res.Broken = true
+	}
 	tail := r.out
 	if len(tail) > 3000 {
 		tail = tail[len(tail)-3000:]
@@ -176,7 +180,10 @@ func runStandins(reg []ReplayAdapter, pr *PropertyRun, prop string, wd string) [
 				fails = append(fails, f)
 			}
 		}
-		out = append(out, map[string]any{"function": fn, "adapter": a.File + ":" + a.Test, "bound": a.Bound, "cases": res.Cases, "failed": len(fails) > 0, "failures": fails, "label": "bounded (not counted as proved)"})
+		out = append(out, map[string]any{"function": fn, "adapter": a.File + ":" + a.Test, "bound": a.Bound, "cases": res.Cases, "failed": len(fails) > 0, "failures": fails, "label": "bounded (not counted as proved)", "adapter_broken": res.Broken})
+		if res.Broken {
+			fmt.Printf("gvc: replay adapter %s did not complete:\n%s\n", a.Test, res.Output)
+		}
 	}
 	return out
 }
